@@ -454,12 +454,14 @@ NAMES = {
     "paren": ["X(App)", "X@App", "X,App", "X/App", "[X]", "X=App", "X\"App\""],
 }
 VALUES = {
-    "plain": ["v1", "text/plain", "a=b; Path=/", "x" * 300],
+    "plain": ["v1", "text/plain", "a=b; Path=/", "x" * 300, "z" * 20000],
     "padded": ["  v1\t", "\tv1", "v1   "],
     "cr": ["a\rb", "a\r", "\ra"],
-    "lf": ["a\nb", "a\n", "a\n b"],
-    "nul": ["a\x00b", "\x00"],
-    "crlf_inject": ["a\r\nX-Injected: yes", "a\r\n\r\n<html>", "a\r\nSet-Cookie: x=y"],
+    "lf": ["a\nb", "a\n", "a\n b", "q" * 9000 + "\nb"],
+    "nul": ["a\x00b", "\x00", "n" * 8200 + "\x00"],
+    # (also far into a long value: validating only a prefix of the value is not enough)
+    "crlf_inject": ["a\r\nX-Injected: yes", "a\r\n\r\n<html>", "a\r\nSet-Cookie: x=y", "x" * 8190 + "\r\nSet-Cookie: forged=1",
+                    "y" * 70000 + "\r\n\r\n<html>"],
     "ctl": ["a" + c + "b" for c in CTLS],
     "obs": ["caf\xe9", "\x80\xff"],
     "nonlatin1": ["cafĀ", "€"],
